@@ -1,6 +1,7 @@
 """Configuration of ./check C05 (see pylib/props.py)."""
 CFG = dict(
-        coq=["props/C05.vo"],
+        coq=["props/C05.vo", "props/Compose.vo"],
+        compose=['Compose_discard', 'Compose_merge_', 'Compose_collision', 'Compose_wide', 'Compose_keyless'],
         model_vo=["model/ColDiff.vo", "model/Merge.vo", "model/MergeSpec.vo"],
         extract="Ex_C05",
         level_text="PARTIAL BY PLAN. Proved: CompareColumns on duplicate-free column lists, any number of branches "
